@@ -294,6 +294,15 @@ namespace occa {
                   && ((declarationStatement*) smnt)->declaresVariable(var)
                 );
 
+                if (varIsBeingDeclared && !var.isNamed()) {
+                  // The backends rewrite the declaration around the variable name
+                  smnt->printError(std::string("[@")
+                                   + (isShared ? "shared" : "exclusive")
+                                   + "] variables must be named");
+                  isValid = false;
+                  return;
+                }
+
                 if (varIsBeingDeclared && isShared) {
                   isValid &= hasProperSharedArrayDeclaration(var);
                 }
